@@ -19,7 +19,7 @@ VERIF = os.path.dirname(os.path.dirname(os.path.abspath(__file__)))
 COQ = os.path.join(VERIF, "coq")
 BUILD = os.path.join(VERIF, "build")
 CASES = os.path.join(BUILD, "cases")
-REPO = "/repo"
+REPO = os.environ.get("VERIF_REPO", "/repo")   # VERIF_REPO: scratch worktree for mutation experiments only
 ENV = dict(os.environ, CARGO_NET_OFFLINE="true")
 NCPU = min(16, os.cpu_count() or 4)
 
@@ -330,6 +330,8 @@ def _run_coq_shard(args):
             os.remove(os.path.join(CASES, name + ext))
         except FileNotFoundError:
             pass
+    if rc == 124:
+        return ("timeout", "")
     if rc != 0:
         return ("error", out[-3000:])
     vals = []
@@ -368,6 +370,27 @@ def coq_eval(tag, prelude, exprs, per_shard=400, timeout=900):
             raise Infra("coq case evaluation failed:\n" + r)
         vals.extend(r)
     return vals
+
+
+def coq_eval_groups(tag, prelude, groups, timeout=40):
+    """groups: list of lists of expressions, each group evaluated by its own coqc under a timeout;
+    returns per group the list of parsed values, or None when the group exceeded the time budget"""
+    jobs = [(tag, k, prelude, g, timeout) for k, g in enumerate(groups)]
+
+    def one(j):
+        if not j[3]:
+            return []
+        try:
+            st, r = _run_coq_shard(j)
+        except subprocess.TimeoutExpired:
+            return None
+        if st == "timeout":
+            return None
+        if st != "ok":
+            raise Infra("coq case evaluation failed:\n" + r)
+        return r
+    with cf.ThreadPoolExecutor(NCPU) as ex:
+        return list(ex.map(one, jobs))
 
 
 def zlist(xs):
@@ -462,7 +485,7 @@ def rng_for(seed, prop, salt=""):
 
 
 def repo_state():
-    rc, out = sh("git -C /repo rev-parse HEAD; git -C /repo status --porcelain -- ascent ascent_base ascent_macro byods | head -20", timeout=60)
+    rc, out = sh("git -C %s rev-parse HEAD; git -C %s status --porcelain -- ascent ascent_base ascent_macro byods | head -20" % (REPO, REPO), timeout=60)
     return out.strip()
 
 
